@@ -277,6 +277,8 @@ void run_table(const Case& c, Result& r)
         add("perp=-0.1", sne_perplexity = -0.1, WPE);
         add("perp=max+", sne_perplexity = (N - 1) / 3.0 + 0.01, WPE);
         add("perp=max", sne_perplexity = (N - 1) / 3.0, "accept");
+        add("perp=max-0.2", sne_perplexity = (N - 1) / 3.0 - 0.2, "accept");
+        add("perp=max*0.98", sne_perplexity = (N - 1) / 3.0 * 0.98, "accept");
         add("perp=2", sne_perplexity = 2.0, "accept");
         add("theta=-0.1", sne_theta = -0.1, WPE);
         add("theta=0", sne_theta = 0.0, "accept");
